@@ -62,6 +62,11 @@ func travScenarios() []*tScenario {
 		8: {Claim: 8, Nodes: []tContact{tc(4, 13), tc(5, 14), tc(6, 15), tc(2, 2)}}, 3: {Claim: 3}, 2: {Claim: 2},
 		11: {Claim: 1}, 12: {Claim: 1}, 13: {Claim: 1}, 14: {Claim: 1}, 15: {Claim: 1}},
 		Adds: [][]tContact{{tc(0, 8), tc(5, 11), tc(6, 12), tc(0, 3)}}, RejectAddr: map[int]bool{11: true, 12: true, 13: true, 14: true, 15: true}, Polls: 1, Expect: []byte{2, 3}})
+	// two replies whose node lists are added at the same time, one of them starting with a filtered address
+	add(&tScenario{Name: "filter-overlap", Fine: true, MinPB: 2, K: 3, Alpha: 2, Peers: map[int]tPeer{
+		8: {Claim: 8, Nodes: []tContact{tc(2, 2)}}, 3: {Claim: 3, Nodes: []tContact{tc(4, 13), tc(5, 5)}},
+		2: {Claim: 2}, 5: {Claim: 5}, 13: {Claim: 1}},
+		Adds: [][]tContact{{tc(0, 8), tc(0, 3)}}, RejectAddr: map[int]bool{13: true}, Polls: 1, Expect: []byte{2, 3, 5}})
 	add(&tScenario{Name: "mapped-cycle", Mapped: true, K: 3, Alpha: 2, Peers: map[int]tPeer{
 		1: {Claim: 1, Nodes: []tContact{tc(2, 2), tc(3, 3)}}, 2: {Claim: 2, Nodes: []tContact{tc(1, 1), tc(3, 3)}}, 3: {Claim: 3, Nodes: []tContact{tc(1, 1), tc(2, 2)}}},
 		Adds: [][]tContact{{tc(1, 1)}}, Polls: 1, Expect: []byte{1, 2, 3}})
@@ -257,9 +262,13 @@ func travExplore(t *testing.T, prop string) {
 			w.Cap(fmt.Sprintf("time budget hit before scenario %s (pruned)", scn.Name))
 			continue
 		}
-		unit := fmt.Sprintf("scn=%s;mode=sync;b=%d;pruned", scn.Name, pb)
+		spb := pb
+		if scn.MinPB > spb {
+			spb = scn.MinPB
+		}
+		unit := fmt.Sprintf("scn=%s;mode=sync;b=%d;pruned", scn.Name, spb)
 		w.BeginUnit(i, unit)
-		d := &explore.DFS{W: w, Unit: unit, Preempt: pb, Observe: scn.Polls, DetCheck: 2, Prune: true,
+		d := &explore.DFS{W: w, Unit: unit, Preempt: spb, Observe: scn.Polls, DetCheck: 2, Prune: true,
 			Run: func(prefix []int) explore.Exec { return travRun(t, prop, scn, false, prefix) }}
 		d.Explore()
 		w.Note(fmt.Sprintf("%s: %d executions, %d distinct states expanded, %d prunings, max %d scheduling points", unit, d.Executions, d.States, d.Pruned, d.MaxPoints))
